@@ -626,20 +626,31 @@ CUBE_STRAIGHT = (gens.CUBE[0] + [(Fraction(1, 2), 0, 0)],
                  [[0, 3, 2, 1, 8], [4, 5, 6, 7], [0, 8, 1, 5, 4], [1, 2, 6, 5], [2, 3, 7, 6], [3, 0, 4, 7]])
 
 
+def transform(poly, scale, shift):
+    pts, faces = poly
+    return [tuple(Fraction(c) * scale + shift[i] for i, c in enumerate(p)) for p in pts], faces
+
+
 def cells3(count, rng):
-    """polyhedra built through the protocol: single cells, two cells side by side (not sewn), two cells 3-sewn on a
-    coinciding face, optionally 3-unsewn again"""
+    """polyhedra built through the protocol (scaled / translated copies): single cells, two cells side by side (not
+    sewn), two cells 3-sewn on a coinciding face, 3-unsewn again, or with some sides 2-unsewn afterwards (boundary
+    darts inside a cell complex)"""
     cases = []
     pairs = gens.cell_pairs()
     for k in range(count):
         name, A, B = pairs[k % len(pairs)]
-        mode = (k // len(pairs)) % 4
+        scale = rng.choice([Fraction(1), Fraction(2), Fraction(1, 2), Fraction(3)])
+        shift = tuple(Fraction(rng.randint(-4, 4), rng.choice([1, 2])) for _ in range(3))
+        A, B = transform(A, scale, shift), transform(B, scale, shift)
+        mode = (k // len(pairs)) % 5
         if mode == 0:
             p = gens.Poly3(A if rng.random() < 0.5 else B, 1)
             lines = [f"new 3 {p.ndarts} 0"] + p.lines(True, True, True)
             sig = "single cell"
+            n = p.ndarts
         else:
             lines, a, b_, pair = gens.two_cells_lines(rng, A, B, mask=0, pa=0.0, full_default=False)
+            n = a.ndarts + b_.ndarts
             sig = "two cells 3-sewn"
             if mode == 2 and pair:
                 lines = lines[:-1]
@@ -647,6 +658,10 @@ def cells3(count, rng):
             elif mode == 3 and pair:
                 lines.append(f"funsew 3 {pair[0] if rng.random() < 0.5 else pair[1]}")
                 sig = "two cells 3-sewn then 3-unsewn"
+            elif mode == 4:
+                for _ in range(rng.randint(1, 3)):
+                    lines.append(f"funsew 2 {rng.randint(1, n)}")
+                sig = "two cells 3-sewn, some sides 2-unsewn"
         lines += ["snap", "scene"]
         cases.append(Case(f"cell{k}-{name}", lines, oracle="scene", meta={"sig": sig, "dim": 3, "geometry": True}))
     return cases
@@ -711,9 +726,9 @@ def run(tier, seed):
     parts.append(("exhaustive WF 3-maps n<=3" + ("" if q else " + 30% of n=4"),
                   campaign20(exhaustive3(3, rng) if q else exhaustive3(4, rng, 0.3), binary)))
     parts.append(("glued faces 3-D", campaign20(glued3(rng, 2, 4, 1.0) + (glued3(rng, 3, 3, 1.0) if not q else []), binary)))
-    parts.append(("planar meshes 2-D", campaign20(meshes2(400 if q else 6000, rng), binary)))
-    parts.append(("edit histories 2-D", campaign20(histories2(300 if q else 5000, rng), binary)))
-    parts.append(("polyhedra 3-D", campaign20(cells3(84 if q else 840, rng), binary)))
+    parts.append(("planar meshes 2-D", campaign20(meshes2(1200 if q else 12000, rng), binary)))
+    parts.append(("edit histories 2-D", campaign20(histories2(800 if q else 8000, rng), binary)))
+    parts.append(("polyhedra 3-D", campaign20(cells3(175 if q else 1750, rng), binary)))
     parts.append(("straight corners 3-D (directed)", campaign20(straight3(rng), binary)))
     res = hv.merge_results(parts)
     res["stats"]["oracle_domain"] = dict(sorted(COUNTS.items()))
